@@ -64,7 +64,7 @@ Lemma classification_lifted : forall s v, dom s v ->
   exists m r, meaning_of s = Some m /\ row_of s = Some r /\
     cipher_settings_ok m r = true /\ mac_settings_ok m r = true /\ prf_ok m r v = true /\
     labels_ok m r v = true /\ exporter_ok m r v = true /\ deprecated_ok m r v = true /\
-    keyupdate_ok m r v = true /\ psk_ok m r v = true /\ chk_dispatch s = true.
+    keyupdate_ok m r v = true /\ psk_ok m r v = true /\ cert_ok m r = true /\ chk_dispatch s = true.
 Proof.
   intros s v [Hs [Hv Hn]].
   pose proof (forall_negotiable_spec _ classification_all s v Hs Hv Hn) as H.
@@ -138,7 +138,7 @@ Lemma L_classification : forall s v,
   exists m r, meaning_of s = Some m /\ row_of s = Some r /\
     cipher_settings_ok m r = true /\ mac_settings_ok m r = true /\ prf_ok m r v = true /\
     labels_ok m r v = true /\ exporter_ok m r v = true /\ deprecated_ok m r v = true /\
-    keyupdate_ok m r v = true /\ psk_ok m r v = true /\ chk_dispatch s = true.
+    keyupdate_ok m r v = true /\ psk_ok m r v = true /\ cert_ok m r = true /\ chk_dispatch s = true.
 Proof. intros s v A B C. apply classification_lifted. repeat split; assumption. Qed.
 
 Lemma L_example : In 49199 all_suites /\ In 3 all_versions /\ negotiable 49199 3 = true.
